@@ -107,6 +107,17 @@ def run(ctx):
         # search: an accepted out-of-range program is, by C01's theorem, one that decodes differently;
         # the oracle above already ran on every case, so reaching here means the difference is the other
         # way round (in-range rejected) or in decode only
+    # entry point 1b: the app id given through Subroutine.instantiate(app_id) instead of the constructor
+    impl.app_via_instantiate = True
+    inst_cases = [c for c in cases if c[5] in ("oor-app", "seq")][: (200 if ctx.tier == "quick" else 3000)]
+    for c in inst_cases:
+        fname, v0, v1, app, body, tag = c
+        res = impl.run_ecase(fname, v0, v1, app, body)
+        ctx.note_case(("instantiate", fname, app, str(body)))
+        if res["bytes"] is not None and res["oracle_ok"] is False:
+            ctx.violation("decode(encode(s)) != s on the implementation (app id given through instantiate())",
+                          dict(entry="instantiate", flavour=fname, version=[v0, v1], app_id=app, body=body, got=res["dec"]))
+    impl.app_via_instantiate = False
     nt = text_entry(ctx, impl, 60 if ctx.tier == "quick" else 600)
     try:
         ns = sdk_entry(ctx, 8 if ctx.tier == "quick" else 60)
